@@ -6,8 +6,8 @@ import (
 	"github.com/ozontech/file.d/decoder"
 	"github.com/ozontech/file.d/pipeline"
 	"github.com/ozontech/file.d/pipeline/metadata"
-	"go.uber.org/zap"
 	"github.com/twmb/franz-go/pkg/kgo"
+	"go.uber.org/zap"
 
 	vf "github.com/ozontech/file.d/zzverif"
 )
@@ -75,7 +75,7 @@ func VerifH_C10_packing() {
 }
 
 // stubs for Start: no broker, no consuming goroutine
-func verifStubNewClient(c *Config, l *zap.Logger, s Consumer) *kgo.Client { return nil }
+func verifStubNewClient(c *Config, l *zap.Logger, s Consumer) *kgo.Client   { return nil }
 func verifStubConsume(s *splitConsume, ctx context.Context, cl *kgo.Client) {}
 
 type verifCtl struct{}
@@ -83,10 +83,10 @@ type verifCtl struct{}
 func (verifCtl) In(pipeline.SourceID, string, pipeline.Offsets, []byte, bool, metadata.MetaData) uint64 {
 	return 0
 }
-func (verifCtl) UseSpread()                      {}
-func (verifCtl) DisableStreams()                 {}
-func (verifCtl) SuggestDecoder(decoder.Type)     {}
-func (verifCtl) IncReadOps()                     {}
+func (verifCtl) UseSpread()                        {}
+func (verifCtl) DisableStreams()                   {}
+func (verifCtl) SuggestDecoder(decoder.Type)       {}
+func (verifCtl) IncReadOps()                       {}
 func (verifCtl) IncMaxEventSizeExceeded(...string) {}
 
 // C10.H1b: the topic a record is tagged with at consumption (Start's topic table, used by the
